@@ -228,7 +228,7 @@ class C20(Prop):
     ID = 'C20'
     CORRESPONDENCE = 'PlaybackModel.FileIntercept (prepare/cassetteRT/restoreInput/restoreOutput) vs a full trip through TapeRecorder + cassette'
     RULE = ('full record -> cassette -> replay trips (in-memory, file based, S3 on the boto3 stand-in) with structured '
-            'contents (empty, all 256 byte values, CR/LF mixes, the placeholder text, limit-1/limit/limit+1 bytes, files of tens / hundreds of KB and of more than 1 MB (also exactly 4 and 8 MB) within the limit, contents that are themselves zlib / gzip / base64 payloads, random '
+            'contents (empty, all 256 byte values, CR/LF mixes, the placeholder text, limit-1/limit/limit+1 bytes, files of tens / hundreds of KB and of more than 1 MB (also exactly 4 and 8 MB) within the limit, input paths that are symbolic links to the file (15 % of the trips), contents that are themselves zlib / gzip / base64 payloads, random '
             'binary), path positional/keyword/decoy/falsy keyword, limit explicit/environment/default, plus unit cases '
             'for path selection and the size rule; a case is non-trivial when a file was recorded (trip) or a size was '
             'classified (limit) or a path selected (path); distinct = distinct canonical case')
@@ -283,7 +283,9 @@ class C20(Prop):
                     [s for s in SHAPES if 'P' not in s['pos'] or shape_index(s) == shape_index(shape_out)]),
                 'decoy': rng.random() < 0.5,
                 # a leftover file of the same size at the replayed path; the replayed code names its files relative to its cwd
-                'stale': rng.random() < 0.25, 'relative': rng.random() < 0.2}
+                'stale': rng.random() < 0.25, 'relative': rng.random() < 0.2,
+                # the delivered input path is a symbolic link to the file
+                'symlink': rng.random() < 0.15}
 
     def mk_series(self, rng, cassette=None, n=None):
         """consecutive operations of one long-lived service: same handlers, same working paths; a delivery often has the
@@ -527,7 +529,15 @@ class C20(Prop):
 
             def fetch_body(*args, **kwargs):
                 d = state['dir']
-                h_write(os.path.join(d, 'in.bin'), content_bytes(state['delivery']['in']))
+                if case.get('symlink'):
+                    # the delivered path is a symbolic link (a "current" link into a versioned store): the file is its target
+                    real = os.path.join(d, 'in.real')
+                    h_write(real, content_bytes(state['delivery']['in']))
+                    if os.path.lexists(os.path.join(d, 'in.bin')):
+                        os.remove(os.path.join(d, 'in.bin'))
+                    os.symlink(real, os.path.join(d, 'in.bin'))
+                else:
+                    h_write(os.path.join(d, 'in.bin'), content_bytes(state['delivery']['in']))
                 stamp(os.path.join(d, 'in.bin'))
                 if case['decoy']:
                     h_write(os.path.join(d, 'decoy.bin'), b'decoy')
@@ -836,6 +846,11 @@ class C20(Prop):
         return True
 
     def features(self, case, impl):
+        if isinstance(case, dict) and case.get('symlink'):
+            return ['input-path-is-a-symlink'] + self._features(case, impl)
+        return self._features(case, impl)
+
+    def _features(self, case, impl):
         out = ['kind:' + case['kind']]
         if case['kind'] == 'series':
             out.append('cassette:' + case['cassette'])
